@@ -403,3 +403,26 @@ Proof.
   intros Hc. unfold mode_after. rewrite manager_after_last.
   destruct ctxs as [|x xs]; [congruence|]. cbn [negb]. apply inspector_plain.
 Qed.
+
+(* ------------------------------------------------------------------ the context of an SDS provider is the latest one *)
+Definition sp_latest (p : sprov) : Prop :=
+  match sp_cert p, sp_ca p with
+  | Some c, Some a => sp_ctx p = Some (mkSX c a (sp_cfg p))
+  | _, _ => sp_ctx p = None
+  end.
+
+Lemma sp_step_latest p e : sp_latest p -> sp_latest (sp_step true p e).
+Proof.
+  intros H. unfold sp_latest in *. destruct p as [pc pa cfg ctx]; cbn in H.
+  destruct e as [c|a|c]; unfold sp_step, sp_update; cbn;
+    destruct pc as [pc|], pa as [pa|]; cbn in *; try (destruct ctx; reflexivity); try exact H; subst; reflexivity.
+Qed.
+
+Theorem sds_context_is_latest cfg0 h : sp_latest (provider_after true cfg0 h).
+Proof.
+  unfold provider_after.
+  assert (H0 : sp_latest (sp_update true (mkSP None None cfg0 None))) by reflexivity.
+  revert H0. generalize (sp_update true (mkSP None None cfg0 None)).
+  induction h as [|e h IH]; intros p Hp; cbn [fold_left]; [exact Hp|].
+  apply IH. apply sp_step_latest. exact Hp.
+Qed.
